@@ -11,8 +11,8 @@
 (*   the RAW bytes, start/stop/skip, what the real parser returned (parsed), *)
 (*   the TAP warning, what tapinfo listed (info), the edges of the real      *)
 (*   tapinfo -a pipeline (sig), the byte blocks given to the real writer     *)
-(*   that made the file (wdata, writer). same = 1: all files must give the   *)
-(*   same edge list.                                                         *)
+(*   that made the file (wdata, writer; wexc = 1: the writer raised).        *)
+(*   same = 1: all files must give the same edge list.                       *)
 (* Verdict: "ok", the first clause that fails, or "drift-..." when only      *)
 (* something the property does not speak about differs.                      *)
 (***************************************************************************)
@@ -22,12 +22,15 @@ Cases == JsonDeserialize(IOEnv.CASES)
 
 RunsToEdges(first, runs) == Fold(LAMBDA acc, r : acc \o [k \in 1..r[2] |-> Last(acc) + (k * r[1])], <<first>>, runs)
 
-\* decl: the tape as the documents describe it; gen: the same tape as SkoolKit shapes it (equal signal)
+\* decl: the tape as the documents describe it; gen: the same tape as SkoolKit shapes it (equal signal).
+\* The signal clauses are judged against decl. Which blocks without bytes get a range is SkoolKit's own
+\* convention (a range makes its player read the pulses), so the ranges are judged against gen.
 JudgeEdges(decl, gen, fe, gpol, edges, ranges, expect) ==
   LET gp == gpol % 2
-      v == PropertyClause(decl, fe, gp, edges, ranges)
+      v == PropertyClause(decl, gen, fe, gp, edges, ranges)
       s == RunTape(gen, fe, gp)
-  IN IF v # "ok" THEN v
+  IN IF decl # gen /\ ExpectedSignals(decl, fe, gp) # ExpectedSignals(gen, fe, gp) THEN "machinery-shape"
+     ELSE IF v # "ok" THEN v
      ELSE IF Len(expect) > 0 /\ expect # s.edges THEN "machinery-replay"
      ELSE IF edges # s.edges THEN "drift-edges"
      ELSE IF ranges # RangesOf(s, gen) THEN "drift-ranges"
@@ -55,7 +58,8 @@ PzxLayout(sel, wdata, dev) ==
   Len(sel) = Len(w) + 1 /\ \A k \in 1..Len(w) : sel[k + 1].tm = w[k]
 
 FileClause(f) ==
-  IF f.exc = 1 THEN "parse-exception"
+  IF f.wexc = 1 THEN "write-exception"
+  ELSE IF f.exc = 1 THEN "parse-exception"
   ELSE LET dev == Dev(f)
            sel == Selected(Parse(f.fmt, f.raw, dev), f.start, f.stop, f.skip) IN
        IF dev = "none" THEN "parse"
